@@ -16,6 +16,9 @@ def units():
     for (na, nb) in ((2, 1), (1, 2)):
         us.append(op_unit("and", na, nb, False, both))
     us.append(op_unit("and", 2, 2, False, th, 1800))
+    for (na, nb) in ((2, 1), (1, 2)):
+        for op in ("or", "xor"):
+            us.append(op_unit(op, na, nb, False, th, 7200))
     for n in (0, 1, 2):
         us.append(not_unit(n, False, both))
     for n in (0, 1, 2, 3):
